@@ -236,6 +236,7 @@ func runSDisp(ops []string, emit func(string)) {
 			continue
 		}
 		out := settle(lg)
+		earlyTO := arms.early(out, dispTimeout)
 		arms.observe(out)
 		if f[0] == "wait" && time.Since(waitStart)+waitOldest > 2*dispTimeout-10*time.Millisecond {
 			// the harness overslept: a request written at the first expiry may already have expired too
@@ -250,7 +251,7 @@ func runSDisp(ops []string, emit func(string)) {
 			emit("TIMING")
 			continue
 		}
-		if f[0] != "wait" && strings.Contains(out, ":timeout") {
+		if f[0] != "wait" && strings.Contains(out, ":timeout") && !earlyTO {
 			tainted = true
 			emit("TIMING")
 			continue
